@@ -22,13 +22,18 @@ RULE = ('documents in the article and book classes built from an event grammar: 
         '\\appendix, and \\arabic/\\roman/\\Roman/\\alph/\\Alph/\\the prints; a random structured stream, an exhaustive stream of all '
         'sequences over a small alphabet up to a length bound, all list shapes up to a size bound, a stream of documents LaTeX rejects but '
         'plasTeX accepts (judged against the Model only), a stream of lists nested 5-6 deep, and the exhaustive representation check of '
-        'every value 0..4999 (Alph/alph -3..56).  Non-trivial = at least four events (or a representation in its range).')
-TRUSTED = ['modelled, not verified: Python str(int) (the decimal conversion in the Model is proved to read back to the value), the two regular '
-           'expressions of TheCounter.invoke (applied by the translator to the class formats; formats made by \\newtheorem/\\newcounter are built '
-           'directly as their parsed form, for names of ASCII letters), TeX argument parsing of the numbering macros (C05), string.ascii_letters',
+        'every value 0..4999 (Alph/alph -56..56); format strings handed to Context.newcounter and expanded by the real TheCounter.invoke: '
+        'all strings of up to 3 (thorough: 5) tokens over {$ { } . blank zz alph thesection}, every ASCII code point inside ${..} and after '
+        '$name, random token strings.  Non-trivial = at least four events (a representation in its range; a format containing $).')
+TRUSTED = ['modelled, not verified: Python str(int) (the decimal conversion in the Model is proved to read back to the value), TeX argument '
+           'parsing of the numbering macros (C05), string.ascii_letters; the regular-expression engine itself: the two passes of '
+           'TheCounter.invoke are modelled as a deterministic scanner (Model/FormatParse.v, ASCII \\w and \\s) that is compared with the real '
+           're.sub calls on every string over a small token alphabet, on every ASCII code point in both character-class positions and on '
+           'random strings, and is proved to agree with the translator\'s Python-re parse of every shipped format string',
            'the Spec (Model/NumberingSpec.v) is a hand transcription of the LaTeX kernel / article.cls / book.cls rules; \\thepart and the '
            'decoration of enumerate labels are outside the property and fixed as plasTeX has them']
-ASSUMPTIONS = ['user counter and theorem names consist of ASCII letters and are not LaTeX counter names',
+ASSUMPTIONS = ['in the Spec\'s domain user counter and theorem names consist of ASCII letters and are not LaTeX counter names (the Model itself '
+               'takes any name: the format strings built from it go through the modelled scanner); format strings are ASCII',
                'numbering events occur at the top level of the document body or of a list item (sections only outside lists), one caption per float',
                'explicit operations on enumi..enumiv are considered only inside pure enumerate nesting on the counter of an open list; '
                '\\stepcounter on a list counter is outside the claim',
@@ -644,7 +649,7 @@ def gen_tables(repo, gen_dir):
     # obligations re-proved against the regenerated table on every run (they are part of the closure of Properties/C08.v):
     # reset graph acyclic + keys unique for article, report, book (class_counters_wellformed); initial states of article and book
     # related to LaTeX's (init_sim: 16 boolean checks by vm_compute + the format correspondence of every \the macro)
-    d['obligations'] = 5
+    d['obligations'] = 7    # + class_formats_parse, class_thes_from_source (every shipped format string: Model scanner = Python re)
     return d
 
 
@@ -667,8 +672,8 @@ FMT_SMALL = ['$', '{', '}', '.', ' ', 'zz', 'alph', 'thesection']
 
 def format_cases(rng, quick, boost):
     out = []
-    # exhaustive: every string of up to 4 (5) tokens of the small alphabet
-    for n in range(0, (5 if quick else 6)):
+    # exhaustive: every string of up to 3 (5) tokens of the small alphabet
+    for n in range(0, (4 if quick else 6)):
         for t in itertools.product(FMT_SMALL, repeat=n):
             out.append(('format-exhaustive', dict(kind='fmt', fmt=''.join(t), trim=0)))
     # the character classes \\w and \\s, every ASCII code point (TeX-special characters excepted: they do not survive
